@@ -597,6 +597,19 @@ package store
 //@   forbid [no-relock-while-locked]{C17} "repo.BlobDelete("
 //@   forbid [no-relock-while-locked]{C17} "repo.BlobGet("
 //@   ensures [already-stored-is-not-a-failure]{C17} err != types.ErrBlobExists
+//@   -- the conversion is recorded: with the referrers API on, a successful ingest leaves the index marked as converted, so the
+//@   -- fallback tags are not converted (and their responses not rebuilt) a second time
+//@   loop 6,7: invariant [converted-kept]{C17} *conf.API.Referrer.Enabled ==> index.Annotations != nil && index.Annotations[types.AnnotReferrerConvert] == "true"
+//@   -- an index that is already marked is not converted again: its top-level entries are exactly what they were (only child
+//@   -- records are rebuilt), whatever fallback tags it still carries
+//@   loop 1: invariant [top-level-untouched]{C17} index.Manifests == old(index.Manifests) && (forall k: int :: 0 <= k && k < len(index.Manifests) ==> index.Manifests[k] == old(index.Manifests[k])) &&
+//@             arr(digestTags) != arr(index.Manifests) && arr(scanChildren) != arr(index.Manifests)
+//@   loop 6,7: invariant [work-list-apart]{C17} old(index.Annotations != nil && index.Annotations[types.AnnotReferrerConvert] == "true") ==> arr(scanChildren) != arr(index.Manifests)
+//@   loop 6,7: invariant [converted-means-untouched]{C17} old(index.Annotations != nil && index.Annotations[types.AnnotReferrerConvert] == "true") ==>
+//@             index.Manifests == old(index.Manifests) && (forall k: int :: 0 <= k && k < len(index.Manifests) ==> index.Manifests[k] == old(index.Manifests[k]))
+//@   ensures [converted-means-untouched]{C17} err == nil && old(index.Annotations != nil && index.Annotations[types.AnnotReferrerConvert] == "true") ==>
+//@             index.Manifests == old(index.Manifests) && (forall k: int :: 0 <= k && k < len(index.Manifests) ==> index.Manifests[k] == old(index.Manifests[k]))
+//@   ensures [marks-converted]{C17} err == nil && *conf.API.Referrer.Enabled ==> index.Annotations != nil && index.Annotations[types.AnnotReferrerConvert] == "true"
 //@   -- the clean-up after the conversion drops the fallback *tag*: an entry that shares the digest of a converted fallback
 //@   -- index (another tag on the same blob, the regenerated response when it is byte-identical) stays
 //@   -- (RmDesc with digest and tag removes the tag and keeps the digest, C18; what is passed is the fallback entry as it was
@@ -657,6 +670,8 @@ package store
 //@ -- the shared code is handed a repository and an index, never nil (every caller passes its own receiver)
 //@ func repoGetIndex(repo Repo, d types.Descriptor, locked bool) (i types.Index, err error)
 //@   requires [repo] repo != nil
+//@   -- reading an index decodes into fresh memory: no map and no index object that existed before is touched
+//@   ensures [maps-frame]{C17} frame_maps(string, string) && frame_struct(types.Index)
 //@ func indexValidReferrer(repo Repo, index types.Index, locked bool) (valid bool, subject digest.Digest, responses map[digest.Digest][]types.Descriptor)
 //@   requires [repo] repo != nil
 
